@@ -136,6 +136,8 @@ func init() {
 		v := map[string]interface{}{"id": "rand7-" + itoa(i), "queries": []interface{}{symList(q)}, "targets": ts,
 			"measure": measure, "n": n, "d": -1, "table": !plain, "threads": 1}
 		// letter case must not matter: lower-case queries, lower-case targets, soft-masked targets
+		v["wrapt"] = []int{0, 0, 7, 16, 60}[rng.Intn(5)]
+		v["wrapq"] = []int{0, 0, 10}[rng.Intn(3)]
 		switch rng.Intn(6) {
 		case 0:
 			v["lowq"] = true
